@@ -178,6 +178,17 @@ impl MemoryManager {
     }
 }
 
+impl Drop for MemoryManager {
+    fn drop(&mut self) {
+        // objects retired after the last reclamation cycle started are still waiting here
+        if let Ok(mut waiting) = self.wait_to_free.lock() {
+            for val in waiting.drain(..) {
+                val.delete();
+            }
+        }
+    }
+}
+
 impl Drop for MemoryManagerInner {
     fn drop(&mut self) {
         for val in self.tofree.drain(..) {
